@@ -5,8 +5,8 @@ META = {
     "property_id": "C47",
     "level": "model_checking",
     "technique": "TLA+ spec of range-based state reconstruction from untrusted peers (SnapSync.tla) model-checked with TLC; real snap/1 and snap/2 syncers run against harness peers (honest answers from the real Service*Query, seeded misbehaviour per request) with every database write observed; recorded runs validated by SnapSyncTrace.tla",
-    "text": "SnapSync.tla models range tasks, requests, peer answers of any kind (genuine full/truncated range, corrupted proof or data, refusal, no or late answer), acceptance only of verifying ranges, flushes, restarts from persisted progress and completion; TLC checks for all interleavings that nothing unverified is stored, progress never passes unverified keys, and completion implies the stored state equals the target. The real syncers (NewV1Syncer, NewV2Syncer; hash and path scheme) sync random targets from 2-5 harness peers whose honest answers are produced by the real serving functions over a source chain and whose misbehaviour per request follows a seeded policy (capped, late, dropped, corrupted proof, corrupted data, refusal); syncs are cancelled at random points and resumed by a fresh syncer on the same database; additional snap/1 runs move the pivot to a later block of a source chain whose blocks create accounts and write/delete storage. A wrapping ethdb checks every flat account, slot and code write against the target at write time; each request, response (with the oracle's genuineness verdict), write, restart and completion is recorded and TLC checks that every write is covered by an earlier genuine response and that on completion the stored items are exactly the target; finally flat state, codes and the fully iterated trie are compared with the target.",
-    "note": "Left out: snap/2 pivot moves (BAL catch-up) are NOT exercised; snap/1 pivot moves are (sync against an early header, cancel, resume against a later header of a source chain with state-changing blocks), but there only write values and the final full trie are checked (snap/1 does not promise a consistent flat state after a pivot move) and no per-item events go to TLC; late genuine responses count as verified in the trace spec (the syncer ignores them); trie nodes written during range reconstruction are only checked for hash/key consistency (boundary nodes are healed later) and by the final full-trie comparison; request timeout ceiling lowered through an export hook.",
+    "text": "SnapSync.tla models range tasks, requests, peer answers of any kind (genuine full/truncated range, corrupted proof or data, refusal, no or late answer), acceptance only of verifying ranges, flushes, restarts from persisted progress and completion; TLC checks for all interleavings that nothing unverified is stored, progress never passes unverified keys, and completion implies the stored state equals the target. The real syncers (NewV1Syncer, NewV2Syncer; hash and path scheme) sync random targets from 2-5 harness peers whose honest answers are produced by the real serving functions over a source chain and whose misbehaviour per request follows a seeded policy (capped, late, dropped, corrupted proof, corrupted data, refusal); syncs are cancelled at random points and resumed by a fresh syncer on the same database; additional snap/1 and snap/2 runs move the pivot to a later block of a source chain whose blocks change the state (snap/2: Amsterdam blocks with access lists, catch-up by applying the verified lists). A wrapping ethdb checks every flat account, slot and code write against the target at write time; each request, response (with the oracle's genuineness verdict), write, restart and completion is recorded and TLC checks that every write is covered by an earlier genuine response and that on completion the stored items are exactly the target; finally flat state, codes and the fully iterated trie are compared with the target.",
+    "note": "Pivot moves are exercised on the real code but not in the TLA+ model: snap/1 (sync against an early header, cancel, resume against a later header of a source chain with state-changing blocks; write values and the final full trie checked - snap/1 does not promise a consistent flat state after a pivot move) and snap/2 (Amsterdam source chain with block access lists built by harness/blockkit; BAL catch-up served by the real ServiceGetAccessListsQuery with misbehaviour; final flat state, codes and full trie must equal the final pivot; values written on the way must belong to a block state between the pivots, storage roots of flat accounts may be stale until trie generation); no per-item events of pivot runs go to TLC; late genuine responses count as verified in the trace spec (the syncer ignores them); trie nodes written during range reconstruction are only checked for hash/key consistency (boundary nodes are healed later) and by the final full-trie comparison; request timeout ceiling lowered through an export hook.",
     "design_ref": "3.7 C47",
 }
 
@@ -16,11 +16,11 @@ def run(ctx):
     drv = ctx.build("c47")
     ctx.model_check("net/MCSnapSync", "net/MCSnapSync", timeout=T, name="MCSnapSync", workers=4, coverage=ctx.thorough)
     tp = os.path.join(ctx.scratch, "trace.ndjson")
-    s, _ = ctx.drive(drv, ["-mode", "record", "-trace", tp, "-n", ctx.pick(8, 60), "-accounts", ctx.pick(60, 150), "-versions", "12", "-pivot", ctx.pick(3, 20)],
+    s, _ = ctx.drive(drv, ["-mode", "record", "-trace", tp, "-n", ctx.pick(8, 60), "-accounts", ctx.pick(60, 150), "-versions", "12", "-pivot", ctx.pick(3, 20), "-pivot2", ctx.pick(4, 30)],
                      name="c47-record", timeout=2 * T)
     ok, consumed, total, r = ctx.validate("net/SnapSyncTrace", tp, ntraces=s["traces"], timeout=2 * T)
     if not ok:
         ctx.reject_trace("net/SnapSyncTrace", tp, consumed, r)
     return ctx.finish(rule="MC: 2 spaces (4 accounts in 2 tasks, 3 slots), 2 hash items, 2 peers with any behaviour, restarts; V: seeded sync runs of snap/1 and snap/2 on both state schemes against misbehaving peers with cancel/resume",
-                      assumptions=["no snap/2 BAL catch-up; snap/1 pivot move checked on the final trie only", "at least one peer able to make progress in every run",
+                      assumptions=["pivot moves (snap/1 heal, snap/2 BAL catch-up) checked on the real code only (final state equality, admissible write values), not modelled in SnapSync.tla", "at least one peer able to make progress in every run",
                                    "request timeout ceiling lowered to 3 s via export hook"])
